@@ -196,6 +196,17 @@ impl<K, V> IndexMap<K, V> {
     { unimplemented!() }
 }
 
+// Entry::or_insert(default): a reference to the existing value, or to `default` inserted at the end; prophecy-style like or_default
+impl<'a, K, V> Entry<'a, K, V> {
+    #[verifier::external_body]
+    pub fn or_insert(self, default: V) -> (r: &'a mut V)
+        ensures
+            im_has(self.before(), self.key()) ==> *r == im_get(self.before(), self.key()),
+            !im_has(self.before(), self.key()) ==> *r == default,
+            self.fin() == im_upsert(self.before(), self.key(), *final(r)),
+    { unimplemented!() }
+}
+
 impl<'a, K, T> Entry<'a, K, VecDeque<T>> {
     #[verifier::external_body]
     pub fn or_default(self) -> (r: &'a mut VecDeque<T>)
